@@ -1,6 +1,7 @@
 package vsched
 
 import (
+	"reflect"
 	"fmt"
 	"unsafe"
 )
@@ -97,4 +98,21 @@ func Appended[T any](where string, old []T, r []T) []T {
 		}
 	}
 	return r
+}
+
+// MapR / MapW: a Go map is one location for the race detector (any write conflicts with any other access,
+// as in the runtime's own "concurrent map" checks). They return the map so that m[k] can be rewritten as
+// MapR(m, where)[k] and m[k] = v as MapW(m, where)[k] = v.
+func MapR[M ~map[K]V, K comparable, V any](m M, where string) M {
+	if s := S; s != nil && m != nil {
+		s.access(reflect.ValueOf(m).Pointer(), false, where)
+	}
+	return m
+}
+
+func MapW[M ~map[K]V, K comparable, V any](m M, where string) M {
+	if s := S; s != nil && m != nil {
+		s.access(reflect.ValueOf(m).Pointer(), true, where)
+	}
+	return m
 }
